@@ -3,12 +3,12 @@ CONSTANTS
   Hosts = {"h1", "h2"}
   Realms = {"ra"}
   RS = {"p"}
-  Slots = {1}
-  CfgSet <- CfgMid
+  Slots = {1, 2}
+  CfgSet <- CfgConc
   OfferSets <- OffersSmall
   Lives = {0, 2}
   TPS = 1
-  MaxClock = 2
+  MaxClock = 1
   MaxCalls = 2
   MaxTok = 2
   MaxRT = 2
